@@ -77,18 +77,29 @@ def _history(item):
     return recs
 
 
-def _file_context(code):
+def _file_context(item):
     """the conversion where it is used: the code is written into a .p8 file (its __lua__ section is the Unicode text) and
-    read back from it"""
+    read back from it - through the stream API and, by file name, through pico8.game.file as the tool does"""
+    code, tmp = item
+    import tempfile
+    import shutil
     from .. import cartio
+    from pico8.game import file as gfile
     rec = {'inp': list(code), 'uni': [-1], 'utf8ok': False, 'back': [-1]}
+    d = tempfile.mkdtemp(prefix='c15_', dir=tmp)
     try:
-        data = cartio.write_p8(cartio.make_game(cartio.memory((0, 0), {}), code, None, 16))
+        g = cartio.make_game(cartio.memory((0, 0), {}), code, None, 16)
+        data = cartio.write_p8(g)
         rec['uni'] = cartio.lua_section_points(data)
         rec['utf8ok'] = rec['uni'] != [-1]
-        rec['back'] = list(cartio.game_code(cartio.read_p8(data)))
+        back = cartio.game_code(cartio.read_p8(data))
+        fp = os.path.join(d, 'c.p8')
+        gfile.to_file(g, fp)
+        back2 = cartio.game_code(gfile.from_file(fp))
+        rec['back'] = list(back if back2 == back else back2)
     except Exception:
         pass
+    shutil.rmtree(d, ignore_errors=True)
     return rec
 
 
@@ -101,6 +112,9 @@ def file_sources():
     # CR in every position relative to a line end; CR LF inside a long string and a comment; tabs; a line of glyphs only
     out += [b'x=1\r\ny=2\r\n', b'-- a\r\n-- b\r\n', b's=[[a\r\nb\r\n]]\r\nz=1\n', b'x=1 \r\n', b'--[[c\r\nd]]\n', b'\t\tx=1\t\n',
             bytes(range(128, 256)) + b'=1\n', b'--' + bytes(range(16, 32)) + b'\x7f\n', b'x=1 -- \r\r\n']
+    # one very long line of multi-byte glyphs (a data string): far more than 64 KiB of UTF-8 text, well within the code limit
+    out.append(b's="' + bytes(0x9a + (i % 90) for i in range(30000)) + b'"\nx=1\n')
+    out.append(b'--' + bytes([0x8e, 0x83, 0x94]) * 9000 + b'\n')
     return out
 
 
@@ -144,7 +158,7 @@ def run(ctx):
         inputs.append(bytes([b]) * 70)
         inputs.append(bytes([b, 65]) * 40 + b'\r\n')
     recs = core.parmap(convert, inputs)
-    frecs = core.parmap(_file_context, file_sources())
+    frecs = core.parmap(_file_context, [(c, ctx.tmp) for c in file_sources()])
     ctx.notes['conversions_through_p8_files'] = len(frecs)
     inputs = inputs + [bytes(r['inp']) for r in frecs]
     recs = recs + frecs
